@@ -430,8 +430,27 @@ def run_check(name, tier, base_seed, jobs=None, only=None):
             print("note: in a fresh interpreter the replay violates the same clause with another signature - the details depend on state the "
                   "library carried over from earlier runs in the worker process; the violation itself stands")
         elif rc.returncode != 1:
-            print("HARNESS-ERROR: replay %s did not reproduce in a fresh interpreter (rc=%s)\n%s" % (path, rc.returncode, rc.stdout[-2000:] + rc.stderr[-2000:]))
-            return 2
+            # the minimised scenario does not stand on its own.  Minimisation runs candidates one after the other inside this process; if the
+            # library carries state from one run to the next (a class-level mutable attribute, a module global) a shrunk scenario may only
+            # fail thanks to what ran before it.  Fall back to the scenarios as generated, each verified on its own in a fresh interpreter.
+            found = None
+            cands = [it for it in viols if any(same_class(mod, v2, vj) or v2["clause"] == vj["clause"] for v2 in it["violations"])][:60]
+            for it in cands:
+                v_it = next(v2 for v2 in it["violations"] if same_class(mod, v2, vj) or v2["clause"] == vj["clause"])
+                r_it = run_one(mod, it["scn"])
+                p_it = write_replay(prop, it["scn"], v_it, r_it.digest, extra={"original_index": it["i"], "minimise_runs": 0, "unminimised": True})
+                rc2 = subprocess.run([sys.executable, os.path.join(VERIF, "vcheck.py"), "--replay", p_it], capture_output=True, text=True, timeout=600,
+                                     env=dict(os.environ, PYTHONHASHSEED="0", PYTHONDONTWRITEBYTECODE="1"))
+                if rc2.returncode in (1, 3, 4):
+                    found = p_it
+                    break
+            if found is None:
+                print("HARNESS-ERROR: replay %s did not reproduce in a fresh interpreter (rc=%s), nor did %d unminimised scenario(s) of that class\n%s"
+                      % (path, rc.returncode, len(cands), rc.stdout[-2000:] + rc.stderr[-2000:]))
+                return 2
+            print("note: the minimised scenario does not fail on its own in a fresh interpreter (state carried over between runs in the worker "
+                  "process took part in it); reporting the scenario as generated, which does")
+            path = found
         print("VIOLATION property=%s replay=%s" % (prop, path))
         violations_total += 1
         exit_code = 1
